@@ -9,7 +9,7 @@ mode, rel = where.split(':', 1)
 target = os.path.join(wt, rel)
 patch = os.path.join(wt, 'patch.diff')
 demo = open(os.path.join(wt, 'demo_test.rs')).read()
-env = dict(os.environ, CARGO_TARGET_DIR=os.path.join(wt, 'target'), CARGO_NET_OFFLINE='true')
+env = dict(os.environ, CARGO_TARGET_DIR=os.path.join(wt, 'sim', 'target'), CARGO_NET_OFFLINE='true')
 
 def sh(*a, **k):
     return subprocess.run(a, capture_output=True, text=True, **k)
@@ -48,6 +48,15 @@ without = run()
 reset()
 sh('git', '-C', wt, 'apply', patch)
 ok = with_mut[1] > 0 and without[1] == 0 and without[2] > 0
+suite = None
+if ok and os.environ.get('SEED_SUITE', '1') == '1':
+    # the existing suite, unedited, with the change applied (timing-dependent simulation tests are retried: they flake under load)
+    p = sh('cargo', 'nextest', 'run', '--workspace', '--no-fail-fast', '--test-threads', '6', '--retries', '3', '--offline', cwd=os.path.join(wt, 'sim'), env=env)
+    import re
+    m = re.search(r'Summary \[.*?\] (\d+) tests run: (\d+) passed(?: \((\d+) flaky\))?(?:, (\d+) failed)?', p.stdout + p.stderr)
+    suite = m.group(0) if m else 'no summary: ' + (p.stdout + p.stderr)[-300:]
+    print('existing suite with change:', suite)
+    ok = bool(m) and not m.group(4) and p.returncode == 0
 print('with change   :', with_mut[0]); print('without change:', without[0]); print('CONFIRMED' if ok else 'NOT CONFIRMED')
 if ok:
     d = os.path.join('/verif/seeded', sid)
@@ -59,6 +68,7 @@ if ok:
     meta['demo_placement'] = where
     meta['confirmed_by_builder'] = {'with_change': with_mut[0], 'without_change': without[0],
                                     'command': f'cargo test --offline -p elvis-core --lib {filt} (demo {mode} {rel})'}
+    meta['existing_suite_with_change'] = suite
     meta['checks_run_against_it'] = detected
     json.dump(meta, open(os.path.join(d, 'meta.json'), 'w'), indent=1)
 sys.exit(0 if ok else 1)
